@@ -309,6 +309,7 @@ static void* threadMain(void* arg) {
 
 // ------------------------------------------------------------------------------------------------ the misuse-while-locked test (runs on thread 0)
 static const Group* g_testScript;
+static char* foreignAddress() { return arena + arenaCap - 4096; }     // never handed out; only its value is used, it is never dereferenced
 class MisuseTest : public Utest {
 public:
     void testBody() CPPUTEST_OVERRIDE {
@@ -322,7 +323,7 @@ public:
             else if (o.kind == X_MISUSE) {
                 fired("misuse_under_lock");
                 if (o.a == 0) { int form = (int)(o.b % 5); size_t n = (size_t)o.c; char* p = (char*)acquire(form, n, 55); p[n] = 'X'; Held h; h.p = p; h.form = form; h.size = n; release(h); }   // overrun, then release: corruption report
-                else if (o.a == 1) { static char notHeap[16]; Held h; h.p = notHeap; h.form = (int)(o.b % 5); h.size = 1; release(h); }                                                  // foreign pointer: non-allocated report
+                else if (o.a == 1) { char* notHeap = foreignAddress(); Held h; h.p = notHeap;     /* a fixed address: a static's address moves with ASLR and with it the bucket it hashes to */ h.form = (int)(o.b % 5); h.size = 1; release(h); }                                                  // foreign pointer: non-allocated report
                 else { char* p = (char*)acquire(0, 8, 56); Held h; h.p = p; h.form = 4; h.size = 8; release(h); }                                                                          // new / free mismatch
             }
         }
@@ -411,6 +412,7 @@ struct Engine : public vf::Engine {
         S.steps = 0; S.budget = 4000000; S.noPreempt = false; S.recorded.clear(); S.replay = d.schedule.empty() ? 0 : &d.schedule; S.replayPos = 0; S.switches = 0; S.order = Hash();
         S.deadlock = S.selfDeadlock = S.unlockByOther = S.budgetExceeded = false; S.deadlockDetail.clear(); S.races.clear(); S.accesses = 0; S.reports = 0; S.firstReport.clear();
         shadowGen++;
+        for (int i = 0; i < MAXT; i++) { sem_destroy(&S.t[i].sem); sem_init(&S.t[i].sem, 0, 0); }      // no stale wake-up can survive from an earlier run
         for (int i = 0; i < S.n; i++) { Thr& T = S.t[i]; T.id = i; T.started = true; T.finished = false; T.blocked = false; T.waitingFor = 0; memset(T.vc, 0, sizeof T.vc); T.vc[i] = 1; memset(T.slots, 0, sizeof T.slots); T.mailbox.clear(); memset(T.mailVc, 0, sizeof T.mailVc); T.script = i == 0 ? 0 : scripts[(size_t)i - 1]; }
         tlsId = 0; S.current = 0;
         for (int i = 1; i < S.n; i++) { memcpy(S.t[i].vc, S.t[0].vc, sizeof S.t[0].vc); S.t[i].vc[i] = 1; pthread_create(&S.t[i].th, 0, threadMain, (void*)(intptr_t)i); }   // thread start edge
@@ -483,6 +485,7 @@ struct Engine : public vf::Engine {
         else { det->clearAllAccounting(mem_leak_period_all); MemoryLeakWarningPlugin::setGlobalDetector(oldDet, oldRep); det->~MemoryLeakDetector(); ::free(det); }
         arenaOn = false;
         counters().inc("probe.instrumented_accesses", S.accesses); counters().inc("probe.context_switches", S.switches);
+        if (getenv("THRSIM_DEBUG")) fprintf(stderr, "steps=%llu switches=%llu accesses=%llu arenaTop=%zu reports=%llu\n", (unsigned long long)S.steps, (unsigned long long)S.switches, (unsigned long long)S.accesses, arenaTop, (unsigned long long)S.reports);
         Hash h = S.order; h.u64(S.switches); for (size_t i = 0; i < r.viols.size(); i++) h.str(r.viols[i].cls().c_str());
         r.hash = h.h;
     }
